@@ -107,3 +107,63 @@ Definition asyncssh_kwargs (b : base_targs) (p : plugin_targs) : conn_kwargs :=
 (* the twin that passes `username` only when the driver has one *)
 Definition asyncssh_kwargs_user_if_any (b : base_targs) (p : plugin_targs) : conn_kwargs :=
   mkK (Some (b_host b)) (Some (b_port b)) (if nonempty_s (p_user p) then Some (p_user p) else None).
+
+(* ---- (3) several asyncssh objects of one process; the dict the user passed as
+   transport_options["asyncssh"] may be ONE object held by several of them ---- *)
+(* a user dict, as far as the connection parameters go: the host / port / username keys it holds
+   (None = key absent).  The site-wide keys (kex / cipher lists, keepalive ...) pass through to the
+   library untouched and are not modelled. *)
+Definition udict := conn_kwargs.
+Definition kw_empty : udict := mkK None None None.
+Definition kw_free (u : udict) : Prop := k_host u = None /\ k_port u = None /\ k_user u = None.
+Definition oor {A} (a b : option A) : option A := match a with Some _ => a | None => b end.
+(* `common_args.update(user dict)` / `user_dict.setdefault(key, ours)`: the user's keys win *)
+Definition kw_over (u k : conn_kwargs) : conn_kwargs :=
+  mkK (oor (k_host u) (k_host k)) (oor (k_port u) (k_port k)) (oor (k_user u) (k_user k)).
+
+(* an object: its own arguments + the ADDRESS (index into the heap of user dicts) of the dict it was
+   constructed with.  Two objects with the same address hold the same dict object: the aliasing. *)
+Record as_obj := mkAO { ao_b : base_targs; ao_p : plugin_targs; ao_d : nat }.
+Definition uheap := list udict.
+Definition shares_dict (o1 o2 : as_obj) : Prop := ao_d o1 = ao_d o2.
+Definition own_kwargs (o : as_obj) (u : udict) : conn_kwargs :=
+  kw_over u (asyncssh_kwargs (ao_b o) (ao_p o)).
+
+Definition as_stepper := list as_obj -> uheap -> nat -> uheap * list (nat * conn_kwargs).
+(* the code as it is: open() builds a fresh dict, the user's dict is only read;
+   an event (i, k) = object i called asyncssh.connect with the keywords k *)
+Definition as_open : as_stepper := fun objs hp i =>
+  match nth_error objs i with
+  | Some o => match nth_error hp (ao_d o) with
+              | Some u => (hp, [(i, own_kwargs o u)])
+              | None => (hp, [])
+              end
+  | None => (hp, [])
+  end.
+(* the twin that setdefault()s its arguments INTO the user's dict and connects with that dict *)
+Definition as_open_setdefault : as_stepper := fun objs hp i =>
+  match nth_error objs i with
+  | Some o => match nth_error hp (ao_d o) with
+              | Some u => let u' := own_kwargs o u in (upd (ao_d o) u' hp, [(i, u')])
+              | None => (hp, [])
+              end
+  | None => (hp, [])
+  end.
+(* a history = the order in which the objects are opened (re-opens included); result = the user's
+   dicts afterwards + the connect calls *)
+Fixpoint as_run (step : as_stepper) (objs : list as_obj) (hp : uheap) (opens : list nat)
+  : uheap * list (nat * conn_kwargs) :=
+  match opens with
+  | [] => (hp, [])
+  | i :: r => let '(hp', ev) := step objs hp i in
+              let '(hp'', evs) := as_run step objs hp' r in (hp'', ev ++ evs)
+  end.
+(* what every open must hand to the library: a function of the opened object's own record and of its
+   dict AS THE USER WROTE IT *)
+Definition as_dial (objs : list as_obj) (hp : uheap) (i : nat) : list (nat * conn_kwargs) :=
+  snd (as_open objs hp i).
+(* n devices given ONE dict / each its own copy of it *)
+Definition devs_shared (devs : list (base_targs * plugin_targs)) : list as_obj :=
+  map (fun d => mkAO (fst d) (snd d) 0) devs.
+Fixpoint devs_copied_from (n : nat) (devs : list (base_targs * plugin_targs)) : list as_obj :=
+  match devs with [] => [] | d :: r => mkAO (fst d) (snd d) n :: devs_copied_from (S n) r end.
